@@ -116,7 +116,7 @@ func (x *Exec) runBlock(fr *frame, b *ssa.BasicBlock, st *State, reach Term, ret
 				rt := fr.fn.Signature.Results().At(k).Type()
 				vs = append(vs, x.scalarize(x.materialize(x.val(fr, r), rt)))
 			}
-			*rets = append(*rets, Ret{reach: reach, vals: vs, st: st})
+			*rets = append(*rets, Ret{reach: reach, vals: vs, st: st, pos: x.pos(i.Pos())})
 			return
 		case *ssa.Panic:
 			if fr.top && x.ct != nil && x.ct.NoPanic {
@@ -307,6 +307,15 @@ func (x *Exec) valueInstr(fr *frame, st *State, ins ssa.Value, reach Term) Val {
 		xv := x.val(fr, i.X)
 		r := freshVal(x.c, fr.prefix+"_range", types.Typ[types.Int])
 		x.rangeOf[i] = xv
+		if m, ok := i.X.Type().Underlying().(*types.Map); ok {
+			if ks := shape(m.Key()); len(ks) == 1 {
+				if x.visited == nil {
+					x.visited = map[*ssa.Range]Term{}
+				}
+				srt := SArr(ks[0].Sort, SBool)
+				x.visited[i] = Term{fmt.Sprintf("((as const %s) false)", srt), srt}
+			}
+		}
 		return Val{T: i.Type(), L: r.L}
 	case *ssa.Next:
 		return x.next(fr, st, i, reach)
@@ -889,6 +898,20 @@ func (x *Exec) next(fr *frame, st *State, i *ssa.Next, reach Term) Val {
 			for j := range v.L {
 				x.c.Assume(Imp(And(reach, okT), Eq(out.L[vlo+j], v.L[j])))
 			}
+		}
+		// ghost set of visited keys: a key is delivered at most once, and when the
+		// iteration ends every key of the map has been delivered (instantiated for
+		// the contract's universally quantified constants)
+		if vis, ok := x.visited[rng]; ok {
+			k := out.L[klo]
+			x.c.Assume(Imp(And(reach, okT), Not(Select(vis, k))))
+			for _, fv := range x.forallVals {
+				if len(fv.L) == 1 && fv.L[0].Sort == k.Sort {
+					_, pres := x.mapRead(st, mt, mv.L[0], fv.L[0], reach)
+					x.c.Assume(Imp(And(reach, Not(okT), pres), Select(vis, fv.L[0])))
+				}
+			}
+			x.visited[rng] = x.c.Define("visited", Ite(okT, Store(vis, k, TTrue), vis))
 		}
 	}
 	return out
